@@ -1276,8 +1276,27 @@ theorem lit_ptSA : (lit "points").toList ++ [' ', '['] = ptSA := by rfl
 theorem lit_ptSB : (lit "points").toList ++ ['['] = ptSB := by rfl
 theorem ivA_eq : ivA = ivSA := by rfl
 theorem ptA_eq : ptA = ptSA := by rfl
-def pcL : List Char := "class = \"IntervalTier\"".toList
-theorem lit_pc : (lit "class = \"IntervalTier\"").toList = pcL := rfl
+/-! the class test `class ?= ?"IntervalTier"` (after fix A22): positive side -/
+
+/-- ` ?= ?` in one of its four forms -/
+def eqOf (b a : Bool) : List Char := (if b then [' '] else []) ++ '=' :: (if a then [' '] else [])
+theorem headLen_eqOf (b a : Bool) (X : List Char) (hX : X.head? ≠ some ' ') :
+    headLen (eqOf b a ++ X) = some (eqOf b a).length := by
+  have hx : (X.head? == some ' ') = false := by
+    cases h : (X.head? == some ' ') with
+    | false => rfl
+    | true => exact absurd (by simpa using h) hX
+  unfold eqOf
+  cases b <;> cases a <;> simp [headLen, spLen, hx]
+
+theorem classAfter_written (b a : Bool) (rest : List Char) : classAfter (eqOf b a ++ (iqL ++ rest)) = some () := by
+  unfold classAfter
+  rw [headLen_eqOf b a _ (by
+    have : iqL = '"' :: "IntervalTier\"".toList := by rfl
+    rw [this]; simp)]
+  simp only [Option.bind_some, List.drop_left]
+  have : iqL.isPrefixOf (iqL ++ rest) = true := List.isPrefixOf_iff_prefix.2 (List.prefix_append _ _)
+  rw [if_pos this]
 
 /-- **(b) one written interval tier is read back** from its `tierTxt` (the text between two `item [`) -/
 theorem readTier_iv (num : α → String) (hnum : ∀ x, LongNum (num x).toList) (k : Nat) (t : ITier α) (trail : List Char)
@@ -1292,14 +1311,21 @@ theorem readTier_iv (num : α → String) (hnum : ∀ x, LongNum (num x).toList)
       (List.mem_cons_of_mem _ (List.mem_cons_of_mem _ hp))
   have htb : '[' ∉ trail := fun h => absurd (htrail _ h) (by decide)
   -- the class
-  have hI : Txt.contains (tierBodyL num k (.I t) ++ trail).toArray (lit "class = \"IntervalTier\"") = true := by
-    rw [contains_eq _ _ (by decide), lit_pc, List.toList_toArray]
-    apply findL_isSome_of_infix _ _ (by decide)
-    refine ⟨idxL k ++ '\n' :: tab2, [' '] ++ '\n' :: (joinNl (List.drop 2 (headLines num k "IntervalTier".toList t.name t.lo t.hi
-      "intervals".toList t.es.length)) ++ ivItems num 0 t.es ++ trail), ?_⟩
-    have : pcL = "class = \"".toList ++ ("IntervalTier".toList ++ ['"']) := by rfl
-    simp only [this, tierBodyL, tierHead, headLines, joinNl, classRow, List.drop_succ_cons, List.drop_zero, List.append_assoc,
-      List.cons_append, List.nil_append]
+  have hI : matchClass (tierBodyL num k (.I t) ++ trail).toArray = true := by
+    rw [matchClass_eq, List.toList_toArray]
+    have e : tierBodyL num k (.I t) ++ trail = (idxL k ++ '\n' :: tab2) ++ (('c' :: ['l', 'a', 's', 's']) ++ (eqOf true true ++ (iqL ++
+        ([' '] ++ '\n' :: (joinNl (List.drop 2 (headLines num k "IntervalTier".toList t.name t.lo t.hi "intervals".toList t.es.length)) ++
+          ivItems num 0 t.es ++ trail))))) := by
+      have e0 : "class = \"".toList = ('c' :: ['l', 'a', 's', 's']) ++ (eqOf true true ++ ['"']) := by rfl
+      have e1 : iqL = '"' :: ("IntervalTier".toList ++ ['"']) := by rfl
+      simp only [e0, e1, tierBodyL, tierHead, headLines, joinNl, classRow, List.drop_succ_cons, List.drop_zero, List.append_assoc,
+        List.cons_append, List.nil_append]
+    have hlit : classKw = 'c' :: ['l', 'a', 's', 's'] := by rfl
+    rw [e, hlit, scanL_after 'c' _ _ _ _ () (by
+      simp only [List.mem_append, List.mem_cons, not_or]
+      exact ⟨notMem_idxL 'c' k (by decide) (by decide) (by decide), by decide, notMem_tab2 'c' (by decide)⟩)
+      (classAfter_written true true _)]
+    rfl
   -- the split at `intervals [`
   have hsplit : splitKw (tierBodyL num k (.I t) ++ trail).toArray (lit "intervals") =
       (piecesL tab2 (tierHead num k "IntervalTier".toList t.name t.lo t.hi "intervals".toList t.es.length)
@@ -1424,52 +1450,180 @@ theorem split_unique (c : Char) (a b a' b' : List Char) (h : a ++ c :: b = a' ++
       obtain ⟨e1, e2⟩ := ih xs h.2 (fun e => ha (List.mem_cons_of_mem _ e)) (fun e => ha' (List.mem_cons_of_mem _ e))
       exact ⟨by rw [h.1, e1], e2⟩
 
-/-- the window `s = "I` of `class = "IntervalTier"` -/
-def clsW : List Char := ['s', ' ', '=', ' ', '"', 'I']
+/-! the class test, negative side: `class ?= ?"IntervalTier"` cannot match inside a written row -/
 
-theorem class_not_in_textRow (ind key : List Char) (s : String) (hi : q ∉ ind) (hk : q ∉ key) (hkne : key ≠ [])
-    (hlast : key.getLast? ≠ some 's') : ¬ pcL <:+: textRowL ind key s := by
+/-- the four literal forms the pattern `class ?= ?"IntervalTier"` matches -/
+def pcG (b a : Bool) : List Char := classKw ++ (eqOf b a ++ iqL)
+/-- the window `s ?= ?"I` of the pattern -/
+def clsWG (b a : Bool) : List Char := ('s' :: eqOf b a) ++ '"' :: ['I']
+
+theorem clsWG_infix (b a : Bool) : clsWG b a <:+: pcG b a := by
+  cases b <;> cases a <;> exact ⟨"clas".toList, "ntervalTier\"".toList, by decide⟩
+
+theorem scanL_some {β : Type} (kw : List Char) (f : List Char → Option β) (l : List Char) (x : β)
+    (h : scanL kw f l = some x) : ∃ u v, l = u ++ (kw ++ v) ∧ f v = some x := by
+  induction l with
+  | nil => simp [scanL] at h
+  | cons c cs ih =>
+    simp only [scanL] at h
+    split at h
+    · rename_i hp
+      cases hf : f ((c :: cs).drop kw.length) with
+      | some y =>
+        rw [hf] at h
+        cases h
+        refine ⟨[], (c :: cs).drop kw.length, ?_, hf⟩
+        obtain ⟨t, ht⟩ := List.isPrefixOf_iff_prefix.1 hp
+        rw [← ht]; simp
+      | none =>
+        rw [hf] at h
+        obtain ⟨u, v, e, hv⟩ := ih h
+        exact ⟨c :: u, v, by rw [e]; rfl, hv⟩
+    · obtain ⟨u, v, e, hv⟩ := ih h
+      exact ⟨c :: u, v, by rw [e]; rfl, hv⟩
+
+theorem headLen_some (v : List Char) (h : Nat) (hh : headLen v = some h) : ∃ b a, v = eqOf b a ++ v.drop h := by
+  cases v with
+  | nil => simp [headLen, spLen] at hh
+  | cons c v1 =>
+    by_cases hc : c = ' '
+    · subst hc
+      cases v1 with
+      | nil => simp [headLen, spLen] at hh
+      | cons d v2 =>
+        by_cases hd : d = '='
+        · subst hd
+          cases v2 with
+          | nil => simp [headLen, spLen] at hh; subst hh; exact ⟨true, false, by simp [eqOf]⟩
+          | cons e v3 =>
+            by_cases he : e = ' '
+            · subst he; simp [headLen, spLen] at hh; subst hh; exact ⟨true, true, by simp [eqOf]⟩
+            · simp [headLen, spLen, he] at hh; subst hh; exact ⟨true, false, by simp [eqOf]⟩
+        · simp [headLen, spLen, hd] at hh
+    · by_cases hd : c = '='
+      · subst hd
+        cases v1 with
+        | nil => simp [headLen, spLen] at hh; subst hh; exact ⟨false, false, by simp [eqOf]⟩
+        | cons e v3 =>
+          by_cases he : e = ' '
+          · subst he; simp [headLen, spLen] at hh; subst hh; exact ⟨false, true, by simp [eqOf]⟩
+          · simp [headLen, spLen, he] at hh; subst hh; exact ⟨false, false, by simp [eqOf]⟩
+      · simp [headLen, spLen, hc, hd] at hh
+
+/-- if no literal form of the pattern occurs, the class test fails -/
+theorem classScan_none (l : List Char) (h : ∀ b a, ¬ pcG b a <:+: l) : scanL classKw classAfter l = none := by
+  cases hs : scanL classKw classAfter l with
+  | none => rfl
+  | some x =>
+    exfalso
+    obtain ⟨u, v, e, hv⟩ := scanL_some _ _ _ _ hs
+    unfold classAfter at hv
+    cases hh : headLen v with
+    | none => rw [hh] at hv; cases hv
+    | some n =>
+      rw [hh, Option.bind_some] at hv
+      by_cases hp : iqL.isPrefixOf (v.drop n) = true
+      · obtain ⟨b, a, hv2⟩ := headLen_some v n hh
+        obtain ⟨t, ht⟩ := List.isPrefixOf_iff_prefix.1 hp
+        refine h b a ⟨u, t, ?_⟩
+        rw [e, hv2, ← ht]
+        simp only [pcG, List.append_assoc]
+      · rw [if_neg hp] at hv
+        cases hv
+
+/-- **the class pattern cannot match inside a written text row**: `pre key ?= ?"escaped text" tr`, for any of the forms
+of ` ?= ?` in the pattern and in the row (every quote of the text is doubled; the row's key does not end in `s`) -/
+theorem classPat_not_in_row (b a B A : Bool) (pre key : List Char) (s : String) (tr : List Char) (hpre : q ∉ pre)
+    (hk : q ∉ key) (kl : Char) (kr : List Char) (hkey : key.reverse = kl :: kr) (hkl1 : kl ≠ 's') (hkl2 : kl ≠ ' ')
+    (_hkl3 : kl ≠ '=') (htr : q ∉ tr) (htrI : 'I' ∉ tr) :
+    ¬ pcG b a <:+: (pre ++ (key ++ eqOf B A)) ++ q :: (escapeL s.toList ++ q :: tr) := by
   intro hpc
-  have hw : clsW <:+: textRowL ind key s := List.IsInfix.trans ⟨"clas".toList, "ntervalTier\"".toList, by decide⟩ hpc
-  have e : textRowL ind key s = (ind ++ (key ++ eqL)) ++ q :: (escapeL s.toList ++ q :: [' ']) := by
-    simp only [textRowL, row, List.append_assoc, List.cons_append, List.nil_append]
-  rw [e] at hw
-  have hqX : q ∉ ind ++ (key ++ eqL) := by
-    simp only [List.mem_append, not_or]; exact ⟨hi, hk, by decide⟩
-  have hclsW : clsW = ['s', ' ', '=', ' '] ++ q :: ['I'] := rfl
-  rcases infix_cons_split q clsW _ _ hw with h1 | h1 | ⟨p1, p2, he, hs, hp⟩
-  · exact hqX (h1.subset (by decide))
-  · rcases infix_cons_split q clsW _ _ h1 with h2 | h2 | ⟨p1, p2, he, hs, hp⟩
-    · have h3 : [' ', q, 'I'] <:+: escapeL s.toList := List.IsInfix.trans ⟨['s', ' ', '='], [], by decide⟩ h2
-      rcases isolated_quote_escape _ _ _ h3 with h4 | h4 <;> exact absurd h4 (by decide)
-    · have := h2.length_le; simp [clsW] at this
-    · have hl : clsW.getLast? = (p1 ++ q :: p2).getLast? := by rw [he]
-      rw [List.getLast?_append, show clsW.getLast? = some 'I' by decide] at hl
-      rcases List.prefix_cons_iff.1 hp with rfl | ⟨t, rfl, ht⟩
-      · simp at hl; exact absurd hl (by decide)
-      · have : t = [] := List.prefix_nil.1 ht
-        subst this
-        simp at hl
-  · have hq1 : q ∉ p1 := fun hm => hqX (hs.subset hm)
-    rw [hclsW] at he
-    obtain ⟨e1, e2⟩ := split_unique q _ _ _ _ he (by decide) hq1
+  have hw := List.IsInfix.trans (clsWG_infix b a) hpc
+  have hqe : ∀ x y : Bool, q ∉ eqOf x y := by intro x y; cases x <;> cases y <;> decide
+  have hqX : q ∉ pre ++ (key ++ eqOf B A) := by
+    simp only [List.mem_append, not_or]; exact ⟨hpre, hk, hqe B A⟩
+  have hq1 : q ∉ 's' :: eqOf b a := by
+    simp only [List.mem_cons, not_or]; exact ⟨by decide, hqe b a⟩
+  have hlastI : (clsWG b a).getLast? = some 'I' := by cases b <;> cases a <;> decide
+  rcases infix_cons_split q (clsWG b a) _ _ hw with h1 | h1 | ⟨p1, p2, he, hs, hp⟩
+  · exact hqX (h1.subset (by simp [clsWG, q]))
+  · rcases infix_cons_split q (clsWG b a) _ _ h1 with h2 | h2 | ⟨p1, p2, he, hs, hp⟩
+    · -- inside the escaped text: a quote with a non-quote on both sides
+      obtain ⟨x, front, hx, hxq⟩ : ∃ x front, clsWG b a = front ++ [x, q, 'I'] ∧ x ≠ q := by
+        cases b <;> cases a
+        · exact ⟨'=', ['s'], by decide, by decide⟩
+        · exact ⟨' ', ['s', '='], by decide, by decide⟩
+        · exact ⟨'=', ['s', ' '], by decide, by decide⟩
+        · exact ⟨' ', ['s', ' ', '='], by decide, by decide⟩
+      have h3 : [x, q, 'I'] <:+: escapeL s.toList := List.IsInfix.trans ⟨front, [], by rw [hx]; simp⟩ h2
+      rcases isolated_quote_escape _ _ _ h3 with h4 | h4
+      · exact hxq h4
+      · exact absurd h4 (by decide)
+    · exact htr (h2.subset (by simp [clsWG, q]))
+    · have hl : (clsWG b a).getLast? = (p1 ++ q :: p2).getLast? := by rw [he]
+      rw [List.getLast?_append, hlastI] at hl
+      cases p2 with
+      | nil => simp at hl; exact absurd hl (by decide)
+      | cons y ys =>
+        have hlast : ((q :: y :: ys).getLast?) = (y :: ys).getLast? := List.getLast?_cons_cons
+        rw [hlast] at hl
+        cases hyl : (y :: ys).getLast? with
+        | none => simp at hyl
+        | some z =>
+          rw [hyl] at hl
+          simp at hl
+          have hz2 : z ∈ tr := hp.subset (List.mem_of_getLast? hyl)
+          rw [← hl] at hz2
+          exact htrI hz2
+  · have hqp1 : q ∉ p1 := fun hm => hqX (hs.subset hm)
+    have he' : ('s' :: eqOf b a) ++ q :: ['I'] = p1 ++ q :: p2 := he
+    obtain ⟨e1, _⟩ := split_unique q _ _ _ _ he' hq1 hqp1
     subst e1
     obtain ⟨u, hu⟩ := hs
-    have e3 : (u ++ ['s']) ++ [' ', '=', ' '] = (ind ++ key) ++ [' ', '=', ' '] := by
-      have : ind ++ (key ++ eqL) = (ind ++ key) ++ [' ', '=', ' '] := by simp [eqL]
-      rw [← this, ← hu]; simp
-    have e4 := List.append_cancel_right e3
-    have hl : (ind ++ key).getLast? = some 's' := by rw [← e4]; simp
-    rw [List.getLast?_append] at hl
-    cases hkl : key.getLast? with
-    | none =>
-      cases key with
-      | nil => exact hkne rfl
-      | cons a as => simp at hkl
-    | some ch =>
-      rw [hkl] at hl
-      simp at hl
-      exact hlast (by rw [hkl, hl])
+    have hrev : (eqOf b a).reverse ++ ['s'] <+: (eqOf B A).reverse ++ (kl :: (kr ++ pre.reverse)) := by
+      have h1 : (pre ++ (key ++ eqOf B A)).reverse = (eqOf B A).reverse ++ (kl :: (kr ++ pre.reverse)) := by
+        simp only [List.reverse_append, hkey, List.append_assoc, List.cons_append]
+      rw [← h1, ← hu]
+      simp
+    unfold eqOf at hrev
+    cases b <;> cases a <;> cases B <;> cases A <;> simp [List.cons_prefix_cons] at hrev
+    all_goals first
+      | exact hkl1 hrev.symm
+      | exact hkl1 hrev.1.symm
+      | exact hkl2 hrev.symm
+      | exact hkl2 hrev.1.symm
+      | exact hkl2 hrev.2.1.symm
+      | exact hkl1 hrev.2.1.symm
+
+/-- the class pattern does not match the class row of a point tier, `pre class ?= ?"TextTier" tr` -/
+theorem classPat_not_in_textTierRow (b a B A : Bool) (pre tr : List Char) (hpre : q ∉ pre) (htr : q ∉ tr) (htrI : 'I' ∉ tr) :
+    ¬ pcG b a <:+: (pre ++ (classKw ++ eqOf B A)) ++ q :: ("TextTier".toList ++ q :: tr) := by
+  intro hpc
+  have hw := List.IsInfix.trans (clsWG_infix b a) hpc
+  have hqe : ∀ x y : Bool, q ∉ eqOf x y := by intro x y; cases x <;> cases y <;> decide
+  have hqX : q ∉ pre ++ (classKw ++ eqOf B A) := by
+    simp only [List.mem_append, not_or]; exact ⟨hpre, by decide, hqe B A⟩
+  have hq1 : q ∉ 's' :: eqOf b a := by
+    simp only [List.mem_cons, not_or]; exact ⟨by decide, hqe b a⟩
+  have hqw : q ∈ clsWG b a := by simp [clsWG, q]
+  have hT : "TextTier".toList = 'T' :: "extTier".toList := by rfl
+  rcases infix_cons_split q (clsWG b a) _ _ hw with h1 | h1 | ⟨p1, p2, he, hs, hp⟩
+  · exact hqX (h1.subset hqw)
+  · rcases infix_cons_split q (clsWG b a) _ _ h1 with h2 | h2 | ⟨p1, p2, he, hs, hp⟩
+    · exact absurd (h2.subset hqw) (by decide)
+    · exact htr (h2.subset hqw)
+    · have hqp1 : q ∉ p1 := fun hm => absurd (hs.subset hm) (by decide)
+      have he' : ('s' :: eqOf b a) ++ q :: ['I'] = p1 ++ q :: p2 := he
+      obtain ⟨_, e2⟩ := split_unique q _ _ _ _ he' hq1 hqp1
+      subst e2
+      exact htrI (hp.subset (by simp))
+  · have hqp1 : q ∉ p1 := fun hm => hqX (hs.subset hm)
+    have he' : ('s' :: eqOf b a) ++ q :: ['I'] = p1 ++ q :: p2 := he
+    obtain ⟨_, e2⟩ := split_unique q _ _ _ _ he' hq1 hqp1
+    subst e2
+    rw [hT] at hp
+    simp only [List.cons_append, List.cons_prefix_cons] at hp
+    exact absurd hp.1 (by decide)
 
 theorem mem_ptLines (num : α → String) (j : Nat) (ps : List (Pt α)) (s : List Char) (h : s ∈ ptLines num j ps) :
     ∃ j' p, p ∈ ps ∧ (s = tab2 ++ (ptA ++ idxL j') ∨ s = numRowL tab3 "number".toList (num p.t) ∨
@@ -1490,21 +1644,33 @@ theorem numRow_no_c (ind key : List Char) (w : String) (hw : LongNum w.toList) (
   simp only [numRowL, eqL, List.mem_append, List.mem_cons, List.not_mem_nil, or_false, not_or]
   exact ⟨hind, hkey, ⟨by decide, by decide, by decide⟩, notMem_num _ hw 'c' (by decide), by decide⟩
 
-/-- a point tier's text never contains `class = "IntervalTier"`, whatever its name and marks are -/
+/-- a point tier's text never matches `class ?= ?"IntervalTier"`, whatever its name and marks are -/
 theorem class_not_in_point (num : α → String) (hnum : ∀ x, LongNum (num x).toList) (k : Nat) (t : PTier α) (trail : List Char)
-    (htrail : ∀ c ∈ trail, c = ' ') : ¬ pcL <:+: tierBodyL num k (.P t) ++ trail := by
-  intro h
+    (htrail : ∀ c ∈ trail, c = ' ') : scanL classKw classAfter (tierBodyL num k (.P t) ++ trail) = none := by
+  apply classScan_none
+  intro b a h
   rw [tierBodyL_lines] at h
-  have hc : 'c' ∈ pcL := by decide
-  rcases infix_lines pcL _ _ (by decide) (by decide) h with ⟨s, hs, hin⟩ | hin
+  have hc : 'c' ∈ pcG b a := by cases b <;> cases a <;> decide
+  have hnl : '\n' ∉ pcG b a := by cases b <;> cases a <;> decide
+  have hne : pcG b a ≠ [] := by cases b <;> cases a <;> decide
+  rcases infix_lines (pcG b a) _ _ hnl hne h with ⟨s, hs, hin⟩ | hin
   · simp only [tierLines, headLines, List.cons_append, List.nil_append, List.mem_cons] at hs
     have t2 := notMem_tab2 'c' (by decide)
     have t3 := notMem_tab3 'c' (by decide)
     rcases hs with rfl | rfl | rfl | rfl | rfl | rfl | hs
     · exact not_infix_of_not_mem 'c' _ _ hc (notMem_idxL 'c' k (by decide) (by decide) (by decide)) hin
-    · have : occs pcL 0 (classRow "TextTier".toList) = [] := by decide
-      exact infix_of_occs pcL _ (by decide) hin 0 this
-    · exact class_not_in_textRow tab2 _ t.name (notMem_tab2 _ (by decide)) (by decide) (by decide) (by decide) hin
+    · have e : classRow "TextTier".toList = (tab2 ++ (classKw ++ eqOf true true)) ++ q :: ("TextTier".toList ++ q :: [' ']) := by
+        have e0 : "class = \"".toList = classKw ++ (eqOf true true ++ [q]) := by rfl
+        simp only [classRow, e0, List.append_assoc, List.cons_append, List.nil_append]
+        rfl
+      rw [e] at hin
+      exact classPat_not_in_textTierRow b a true true tab2 [' '] (notMem_tab2 _ (by decide)) (by decide) (by decide) hin
+    · have e : textRowL tab2 "name".toList t.name =
+          (tab2 ++ ("name".toList ++ eqOf true true)) ++ q :: (escapeL t.name.toList ++ q :: [' ']) := by
+        simp only [textRowL, row, eqL, eqOf, if_true, List.append_assoc, List.cons_append, List.nil_append]
+      rw [e] at hin
+      exact classPat_not_in_row b a true true tab2 _ t.name [' '] (notMem_tab2 _ (by decide)) (by decide) 'e' ['m', 'a', 'n']
+        (by decide) (by decide) (by decide) (by decide) (by decide) (by decide) hin
     · exact not_infix_of_not_mem 'c' _ _ hc (numRow_no_c _ _ _ (hnum t.lo) t2 (by decide)) hin
     · exact not_infix_of_not_mem 'c' _ _ hc (numRow_no_c _ _ _ (hnum t.hi) t2 (by decide)) hin
     · refine not_infix_of_not_mem 'c' _ _ hc ?_ hin
@@ -1521,7 +1687,12 @@ theorem class_not_in_point (num : α → String) (hnum : ∀ x, LongNum (num x).
       · subst hs
         exact not_infix_of_not_mem 'c' _ _ hc (numRow_no_c _ _ _ (hnum p.t) t3 (by decide)) hin
       · subst hs
-        exact class_not_in_textRow tab3 _ p.l (notMem_tab3 _ (by decide)) (by decide) (by decide) (by decide) hin
+        have e : textRowL tab3 "mark".toList p.l =
+            (tab3 ++ ("mark".toList ++ eqOf true true)) ++ q :: (escapeL p.l.toList ++ q :: [' ']) := by
+          simp only [textRowL, row, eqL, eqOf, if_true, List.append_assoc, List.cons_append, List.nil_append]
+        rw [e] at hin
+        exact classPat_not_in_row b a true true tab3 _ p.l [' '] (notMem_tab3 _ (by decide)) (by decide) 'k' ['r', 'a', 'm']
+          (by decide) (by decide) (by decide) (by decide) (by decide) (by decide) hin
   · exact not_infix_of_not_mem 'c' _ _ hc (fun hm => absurd (htrail _ hm) (by decide)) hin
 
 /-- **(b) one written point tier is read back** from its `tierTxt` -/
@@ -1536,9 +1707,9 @@ theorem readTier_pt (num : α → String) (hnum : ∀ x, LongNum (num x).toList)
     hkw e.l (by simp only [texts, List.mem_cons, List.mem_map]; exact Or.inr ⟨e, he, rfl⟩) p
       (List.mem_cons_of_mem _ (List.mem_cons_of_mem _ hp))
   have htb : '[' ∉ trail := fun h => absurd (htrail _ h) (by decide)
-  have hI : Txt.contains (tierBodyL num k (.P t) ++ trail).toArray (lit "class = \"IntervalTier\"") = false := by
-    rw [contains_eq _ _ (by decide), lit_pc, List.toList_toArray]
-    exact findL_none_of_not_infix _ _ (class_not_in_point num hnum k t trail htrail)
+  have hI : matchClass (tierBodyL num k (.P t) ++ trail).toArray = false := by
+    rw [matchClass_eq, List.toList_toArray, class_not_in_point num hnum k t trail htrail]
+    rfl
   have hsplit : splitKw (tierBodyL num k (.P t) ++ trail).toArray (lit "points") =
       (piecesL tab2 (tierHead num k "TextTier".toList t.name t.lo t.hi "points".toList t.ps.length)
         (ptBodies num 0 t.ps) trail).map List.toArray := by
